@@ -31,6 +31,16 @@ NOTES.update({
  "C19r7B": "not covered: needs the host's AssignPlayersFn to fail once (fault injection in the callbacks), see C20r4A",
  "C20r7A": "not covered: needs the host's AssignPlayersFn to fail once (fault injection in the callbacks), see C20r4A",
 })
+NOTES.update({
+ "C03r8A": "not covered: the stale entry becomes valid again only after exactly 65,536 changes of the ranking-table object with the same five cards untouched in between and the other table at the end; the sweeps change tables a few times per hand but never line up a hand with a multiple of 65,536",
+ "C04r8A": "not a violation as C04/C05 are read here: with the change a short opening all-in makes its seat the last raiser, so the round closes when the action would return to that all-in seat instead of asking it for one more 'pass'. Every seat with chips has acted since the last wager increase and is level (C05), and the turn still passes clockwise (C04); neither property requires the extra pass of a seat that is all-in",
+ "C04r8B": "not a violation as C04/C05 are read here: as C04r8A - the all-in caller is not asked for one more 'pass' and the round closes one pass earlier; everybody with chips has acted and is level",
+ "C06r8B": "no longer a violation on the current tree: since fix 9a37c80 ApplyOptions drops the player handles of the previous table, so the handle map the change counts is as long as the table (its demo passes with the change applied)",
+ "C07r8A": "not caught by the C07 check, caught by the C03 check (C03/tie-not-equal, C03/order): a per-object memo of evaluations that ignores the ranking table; C03 evaluates every flush and full house through a game object without game id that evaluated the same cards under the other variant first. In C07's differential run the same ordered five cards would have to recur after a move between variants",
+ "C13r8B": "not covered: needs a state document whose limit string is neither 'no' nor 'pot' (empty, for instance); the properties quantify over no-limit and pot-limit",
+ "C17r8B": "not covered: as C17r6A - the button jump needs zero playable seats before the move, where C17 makes no claim about the seat the button goes to",
+ "C20r8A": "caught by the thorough tier of C20 (C20/no-fixpoint, 7 histories in 600,000), not by the quick tier: needs registration on hold, three tables with a stale requirement, a player count not divisible by the table count and the fullest table synced first",
+})
 rows = []
 for rf in sorted(glob.glob(f"{DST}/results/*.json")):
     key = os.path.basename(rf)[:-5]
